@@ -1,8 +1,12 @@
 package rules
 
 import (
+	"fmt"
 	"go/token"
 	"go/types"
+	"os"
+	"strconv"
+	"strings"
 
 	"golang.org/x/tools/go/ssa"
 
@@ -518,4 +522,121 @@ func sliceOrString(x ssa.Value) (types.Type, bool) {
 		return t, t.Info()&types.IsString != 0
 	}
 	return nil, false
+}
+
+// lenFromConds: what a list of branch conditions (helper verdicts spliced in: an.ReachCondsDeep /
+// an.SpliceVerdicts) says about the integer whose access path is subject — the intersection of
+// the comparisons of that value with constants. tested: at least one such comparison was seen.
+// The other operand may be a constant of the function that tested it or a parameter that the
+// call chain binds to a constant (`elems.expect("EVENT", 3)` testing `len(elems) != length`).
+func lenFromConds(conds []an.Cond, subject string) (an.Set, bool) {
+	set := an.Full()
+	tested := false
+	for _, cd := range conds {
+		cd = an.NormCond(cd)
+		b, ok := cd.V.(*ssa.BinOp)
+		if !ok {
+			continue
+		}
+		konst := func(v ssa.Value) (int64, bool) {
+			if k, ok := an.ConstInt(v); ok {
+				return k, true
+			}
+			p := cd.Path(v)
+			if strings.HasPrefix(p, "const:") {
+				if k, err := strconv.ParseInt(strings.TrimPrefix(p, "const:"), 10, 64); err == nil {
+					return k, true
+				}
+			}
+			return 0, false
+		}
+		op := b.Op
+		var k int64
+		switch {
+		case cd.Path(b.X) == subject:
+			kk, ok := konst(b.Y)
+			if !ok {
+				continue
+			}
+			k = kk
+		case cd.Path(b.Y) == subject:
+			kk, ok := konst(b.X)
+			if !ok {
+				continue
+			}
+			k = kk
+			// mirror: k op subject  ≡  subject op' k
+			switch op {
+			case token.LSS:
+				op = token.GTR
+			case token.LEQ:
+				op = token.GEQ
+			case token.GTR:
+				op = token.LSS
+			case token.GEQ:
+				op = token.LEQ
+			}
+		default:
+			continue
+		}
+		if !cd.True {
+			switch op {
+			case token.EQL:
+				op = token.NEQ
+			case token.NEQ:
+				op = token.EQL
+			case token.LSS:
+				op = token.GEQ
+			case token.LEQ:
+				op = token.GTR
+			case token.GTR:
+				op = token.LEQ
+			case token.GEQ:
+				op = token.LSS
+			}
+		}
+		var atom an.Set
+		switch op {
+		case token.EQL:
+			atom = an.Range(k, k)
+		case token.NEQ:
+			atom = an.Range(an.NegInf, k-1).Union(an.Range(k+1, an.PosInf))
+		case token.LSS:
+			atom = an.Range(an.NegInf, k-1)
+		case token.LEQ:
+			atom = an.Range(an.NegInf, k)
+		case token.GTR:
+			atom = an.Range(k+1, an.PosInf)
+		case token.GEQ:
+			atom = an.Range(k, an.PosInf)
+		default:
+			continue
+		}
+		tested = true
+		set = set.Intersect(atom)
+	}
+	return set, tested
+}
+
+// lenAtDeep: the values len-subject f can have when control reaches blk of fn, reading the
+// conditions of private helpers whose verdict fn tested (an error result that was nil, a bool)
+// in fn's terms. ok=false: paths not enumerable.
+func lenAtDeep(fn *ssa.Function, blk *ssa.BasicBlock, f string) (an.Set, bool) {
+	paths, ok := an.ReachCondsDeep(fn, blk)
+	if !ok || len(paths) == 0 {
+		return nil, false
+	}
+	acc := an.Empty()
+	for _, cs := range paths {
+		s, _ := lenFromConds(cs, f)
+		if os.Getenv("MOCVERIF_DEBUG_LEN") != "" {
+			var ps []string
+			for _, cd := range cs {
+				ps = append(ps, fmt.Sprintf("%s=%v", cd.Path(cd.V), cd.True))
+			}
+			fmt.Fprintf(os.Stderr, "lenAtDeep %s @%s: %s => %v\n", f, fn.Name(), strings.Join(ps, " ; "), s)
+		}
+		acc = acc.Union(s)
+	}
+	return acc, true
 }
